@@ -22,7 +22,24 @@ fn variant(d: &mut Dec, base: &[ModeSpec], p: &GenParams) -> (Vec<ModeSpec>, &'s
     let np = v[mi].pats.len();
     let pi = d.below(np);
     for _attempt in 0..4 {
-        match d.below(9) {
+        match d.below(11) {
+            9 => {
+                // one more mode behind the others (a copy of an existing one under a new name): the
+                // base is a strict prefix of this list of modes
+                let mut extra = v[mi].clone();
+                extra.name = format!("{}_X", extra.name);
+                v.push(extra);
+                return (v, "mode_appended");
+            }
+            10 if v.len() >= 2 => {
+                // the last mode dropped (transitions into it removed): a strict prefix of the base
+                v.pop();
+                let nm = v.len();
+                for m in v.iter_mut() {
+                    m.transitions.retain(|t| t.1 < nm);
+                }
+                return (v, "last_mode_dropped");
+            }
             0 => {
                 // one token type changed (kept distinct within the mode): a neighbour, or a value
                 // that coincides with the old one when truncated to 8 / 16 / 32 bits
@@ -117,6 +134,14 @@ fn variant(d: &mut Dec, base: &[ModeSpec], p: &GenParams) -> (Vec<ModeSpec>, &'s
 fn failing(d: &mut Dec, base: &[ModeSpec]) -> Vec<ModeSpec> {
     let mut v = base.to_vec();
     let bad = *d.pick(&["a(", "[a", "\\b", "(?i)a", "a*?", "\\p{Xyz}", "a{2,1}", "(?=a)"]);
+    if d.chance(48) {
+        // the base followed by one more mode that does not compile
+        let mut extra = v[d.below(v.len())].clone();
+        extra.name = format!("{}_F", extra.name);
+        extra.pats[0].rx = Rx::Raw(bad.to_string());
+        v.push(extra);
+        return v;
+    }
     let mi = d.below(v.len()); // first or later mode
     let np = v[mi].pats.len();
     let pi = if d.bool() { 0 } else { np - 1 };
@@ -452,7 +477,7 @@ impl Check for C13 {
         "C13"
     }
     fn rule(&self) -> &'static str {
-        "case = sequence of 3-10 builds drawn with repetition from a pool made of a base configuration, 2-4 near-identical variants (one token type changed, two patterns swapped, lookahead added / removed / polarity flipped / pattern changed, transition added / retargeted, mode renamed, one pattern changed), an unrelated configuration and failing configurations (syntax error or unsupported construct in first / last pattern or lookahead of any mode); mode names carry a per-execution nonce so that executions never meet each other's cache entries; oracle = every build() versus build_uncached() of the same modes: same Ok/Err, equal mode_name, equal token streams on probe inputs sampled from the languages of ALL pool members, and equivalent automata (identical dumps with class predicates compared on a probe set of ~600 characters, or - when dumps differ, and always for the last build of every fourth case - exact language equivalence per mode and lookahead over the alphabet atoms); a quarter of the cases instead drive the simple builder add_patterns(..).build() with pattern lists that are prefixes / extensions of each other, one pattern changed, two swapped, empty, failing (a nonce pattern stands first), compared with the same patterns built without the cache; fixed sweep cases build 70 ... 1 100 (thorough: 9 000) distinct configurations, hit a few early ones, build two more and re-build all of them twice, each time compared with the uncached scanner; non-trivial = a variant is built after its sibling was cached, or a valid build follows a failing one"
+        "case = sequence of 3-10 builds drawn with repetition from a pool made of a base configuration, 2-4 near-identical variants (one token type changed, two patterns swapped, lookahead added / removed / polarity flipped / pattern changed, transition added / retargeted, mode renamed, one pattern changed, one mode appended, last mode dropped), an unrelated configuration and failing configurations (syntax error or unsupported construct in first / last pattern or lookahead of any mode, or in one more mode appended to the base); mode names carry a per-execution nonce so that executions never meet each other's cache entries; oracle = every build() versus build_uncached() of the same modes: same Ok/Err, equal mode_name, equal token streams on probe inputs sampled from the languages of ALL pool members, and equivalent automata (identical dumps with class predicates compared on a probe set of ~600 characters, or - when dumps differ, and always for the last build of every fourth case - exact language equivalence per mode and lookahead over the alphabet atoms); a quarter of the cases instead drive the simple builder add_patterns(..).build() with pattern lists that are prefixes / extensions of each other, one pattern changed, two swapped, empty, failing (a nonce pattern stands first), compared with the same patterns built without the cache; fixed sweep cases build 70 ... 1 100 (thorough: 9 000) distinct configurations, hit a few early ones, build two more and re-build all of them twice, each time compared with the uncached scanner; non-trivial = a variant is built after its sibling was cached, or a valid build follows a failing one"
     }
     fn nondeterministic(&self) -> bool {
         // "whatever was built before" includes the builds of the other cases of this process (the
